@@ -131,9 +131,16 @@ where
     }
 
     fn normalize(&self) -> String {
+        // Impose some line ending sanity and remove comments
+        let text = self.as_ref().replace("\r\n", "\n").replace('\r', "\n");
+        let text = text
+            .lines()
+            .map(|line| line.split('#').next().unwrap_or_default())
+            .collect::<Vec<_>>()
+            .join("\n");
+
         // Tweak everything into canonical form
-        self.as_ref()
-            .trim()
+        text.trim()
             .trim_matches(':')
             .replace("\n:", "\n")
             .split_whitespace()
